@@ -1230,7 +1230,11 @@ def c12(tier, replay):
     # degenerate but legal schemas: every artefact must still be usable
     for label, text in (("comments only", "// nothing\n/* at all */\n"), ("empty file", ""), ("one constant", "const K = 3;\n"),
                         ("one enum", "enum E { E_a = 1 };\n"), ("one typedef", "typedef u8 T;\n"),
-                        ("typedef of typedef", "typedef u16 T;\ntypedef T TT;\nstruct X { TT a; };\n")):
+                        ("typedef of typedef", "typedef u16 T;\ntypedef T TT;\nstruct X { TT a; };\n"),
+                        # one-letter names: the generated C++ uses E and T as template parameter names
+                        ("struct named E", "struct E { u32 a; };\nstruct X { E e; u8 b; };\n"),
+                        ("struct named T", "struct T { u32 a; };\nstruct X { T t<>; };\n"),
+                        ("enum named E", "enum E { E_a = 1 };\nstruct X { E e; };\n")):
         items.append({"text": text, "expect": "accept", "label": label, "rules": [], "cpp": True, "cpp_full": True})
     jobs = _chunks(items, NCPU)
     with ProcessPoolExecutor(max_workers=NCPU) as ex:
